@@ -32,6 +32,25 @@ class HarnessError(Exception):
 
 # --------------------------------------------------------------------------- numeric helpers
 
+def blame(exc) -> str:
+    """'repo' if the exception was raised beneath a frame of /repo (and not by harness/engine code), else 'harness'"""
+    tb = exc.__traceback__
+    files = []
+    while tb is not None:
+        files.append(tb.tb_frame.f_code.co_filename)
+        tb = tb.tb_next
+    if not files:
+        return "harness"
+    if not any("/PyMatterSim/" in f for f in files):
+        return "harness"
+    last = files[-1]
+    verif_root = os.path.dirname(os.path.dirname(os.path.abspath(__file__)))
+    if last.startswith(verif_root):
+        # raised by engine/facade code while running repo code: only SymbolicLeak-like gaps end here
+        return "harness"
+    return "repo"
+
+
 def frac_of(v) -> Fraction:
     """z3 numeral -> Fraction"""
     if z3.is_rational_value(v):
@@ -365,6 +384,8 @@ class Engine:
     # ---------------------------------------------------------------- obligations
     def oblige(self, name, cond):
         self.stats["obligations"] += 1
+        if hasattr(cond, "ok") and hasattr(cond, "why"):
+            cond = bool(cond)
         if isinstance(cond, (bool, np.bool_)):
             if cond:
                 self.stats["structural"] += 1
@@ -378,6 +399,19 @@ class Engine:
             return
         if not isinstance(cond, SB):
             raise HarnessError(f"obligation {name}: not a boolean ({type(cond).__name__})")
+        if cond.structural:
+            # equal by rational normal form; the solver independently confirms the division-free identity
+            r, _ = self.check([z3.Not(cond.z)], cond.atoms, timeout_ms=min(3000, self.o["timeout_ms"]))
+            self.stats["structural"] += 1
+            self.stats["discharged"] += 1
+            if r == "unsat":
+                self.stats["structural_confirmed"] = self.stats.get("structural_confirmed", 0) + 1
+            elif r == "sat":
+                self.errors.append(dict(kind="normal-form-contradicted-by-solver", config=self.config, msg=name))
+            if len(self.samples) < 6:
+                self.samples.append(dict(obligation=name, config=self.config,
+                                         verdict="normal form 0 != 0; raw identity query: " + r))
+            return
         r, m = self.check([z3.Not(cond.z)], cond.atoms)
         if r == "unsat":
             self.stats["discharged"] += 1
@@ -443,8 +477,11 @@ class Engine:
             res["exception"] = None
             res["aborted"] = True
         except Exception as e:
-            res["exception"] = f"{type(e).__name__}: {e}"
-            res["traceback"] = traceback.format_exc(limit=8)
+            if blame(e) == "repo":
+                res["exception"] = f"{type(e).__name__}: {e}"
+            else:
+                res["harness_exception"] = f"{type(e).__name__}: {e}"
+            res["traceback"] = traceback.format_exc(limit=12)
         finally:
             ctx.cleanup()
             S.ENGINE = saved_engine
@@ -479,8 +516,12 @@ class Engine:
             self.errors.append(dict(kind="harness", config=self.config, msg=str(e), tb=traceback.format_exc(limit=12)))
             aborted = True
         except Exception as e:
-            raised = e
             raised_tb = traceback.format_exc(limit=12)
+            if blame(e) == "repo":
+                raised = e
+            else:
+                self.errors.append(dict(kind="harness-exception", config=self.config, msg=repr(e), tb=raised_tb))
+                aborted = True
         finally:
             bind.unbind_all()
             self.mode_bound = False
@@ -517,6 +558,10 @@ class Engine:
             return
         # trace validation: real code on the model vs symbolic outputs evaluated on the model
         rep = self.replay(inputs, want_outputs=True)
+        if rep.get("harness_exception"):
+            self.errors.append(dict(kind="harness-exception-in-concrete-replay", config=self.config,
+                                    msg=rep["harness_exception"], tb=rep.get("traceback")))
+            return
         if rep.get("aborted"):
             self.stats["validation_skipped"] += 1
             return
@@ -697,6 +742,7 @@ class SymCtx(_CtxBase):
         c = S.var(name + ".cos")
         s = S.var(name + ".sin", nonneg=polar)
         self.assume(c * c + s * s == 1)
+        P.SQUARE_RULES[_atom_of(s)] = (1 - c * c).n
         return SAngle(c, s, kind="free")
 
     def array(self, name, shape, **kw):
